@@ -163,6 +163,16 @@ def m_parse_int(ex, a, m):
     a decimal digit on this path (the lexer only passes digit runs); otherwise the character classes are forked."""
     tm = re.search(r'::parse::<(\w+)>$', ex.cur_callee)
     ty = tm.group(1) if tm else 'i32'
+    if ty in ('f64', 'f32'):
+        txt = as_str(a[0]).concrete()
+        if txt is None: raise Unsupported(f'str::parse::<{ty}> of a symbolic string')
+        if not re.fullmatch(r'[+-]?((\d+\.?\d*|\.\d+)([eE][+-]?\d+)?|inf|infinity|nan)', txt, re.I): return err(Opaque('ParseFloatError'))
+        x = float(txt)
+        if ty == 'f32':
+            import struct as _st
+            try: x = _st.unpack('<f', _st.pack('<f', x))[0]
+            except OverflowError: x = float('inf') if x > 0 else float('-inf')
+        return ok(F64(x))
     if ty not in INT_BITS or ty == 'char': raise Unsupported(f'str::parse::<{ty}>')
     sv = as_str(a[0]); txt = sv.concrete()
     nb = INT_BITS[ty]; sg = ty[0] == 'i'
@@ -779,6 +789,11 @@ def m_seqacc_next(ex, a, m):
     t = acc.items[acc.i]; acc.i += 1
     r = _de_rc_variable(ex, t)
     return ok(some(r.fields[0].v)) if r.variant == 'Ok' else r
+@model_override(r'^<.+ as (?:serde::)?(?:de::)?(?:MapAccess|SeqAccess)(?:<.*>)?>::size_hint$')
+def m_acc_size_hint(ex, a, m):
+    acc = a[0].cell.v if isinstance(a[0], Ptr) else a[0]
+    if not isinstance(acc, (MapAccV, SeqAccV)): return NotImplemented
+    return none()                # serde_json's text reader does not know the length in advance
 @model_override(r'^<.+ as (?:serde::)?(?:de::)?MapAccess(?:<.*>)?>::next_entry$')
 def m_mapacc_next(ex, a, m):
     acc = a[0].cell.v if isinstance(a[0], Ptr) else a[0]
@@ -804,6 +819,32 @@ def m_sj_err_to_string(ex, a): return StrV(deref_all(a[0]).fields[0].v.chars)
 def m_fmt_arg(ex, a, m): return Agg('struct', 'FmtArg', None, [Cell(a[0]), Cell(Opaque(m.group(1)))])
 @model_rx(r'^Arguments::(new|from_str)$')
 def m_fmt_arguments(ex, a, m): return Agg('struct', 'FmtArguments', None, [Cell(x) for x in a])
+def debug_str_chars(ex, sv):
+    """`{:?}` of a str (char::escape_debug with grapheme-extend escaping, no single-quote escaping): exact for ASCII; non-ASCII concrete characters use
+    Python's printable/combining classification; a symbolic non-ASCII character is unsupported"""
+    import unicodedata
+    out = ['"']
+    simple = {'"': '\\"', '\\': '\\\\', '\n': '\\n', '\r': '\\r', '\t': '\\t', '\0': '\\0'}
+    for c in sv.chars:
+        if not isinstance(c, str) and c.concrete() is not None: c = chr(c.concrete())
+        if isinstance(c, str):
+            if c in simple: out.extend(simple[c])
+            elif ord(c) < 0x20 or ord(c) == 0x7f or (ord(c) >= 0x80 and (not c.isprintable() or unicodedata.category(c) in ('Mn', 'Me'))): out.extend('\\u{%x}' % ord(c))
+            else: out.append(c)
+            continue
+        b = c.bv
+        cls = ex.choose([(k, b == ord(k)) for k in simple] + [('ctl', z3.And(z3.Or(z3.ULT(b, 0x20), b == 0x7f), *[b != ord(k) for k in simple if ord(k) < 0x20])),
+                        ('print', z3.And(z3.UGE(b, 0x20), z3.ULT(b, 0x7f), b != ord('"'), b != ord('\\'))), ('other', z3.UGE(b, 0x80))])
+        if cls in simple: out.extend(simple[cls])
+        elif cls == 'print': out.append(c)
+        elif cls == 'ctl':
+            out.extend('\\u{')
+            hexd = lambda n: Int(z3.If(z3.ULT(n, 10), n + 48, n + 87), 'char')
+            if ex.choose([(True, z3.UGE(b, 0x10)), (False, z3.ULT(b, 0x10))]): out.append(hexd(z3.LShR(b, 4)))
+            out.append(hexd(b & 0xF)); out.append('}')
+        else: raise Unsupported('Debug of a symbolic non-ASCII character')
+    out.append('"')
+    return out
 def render_arg(ex, arg):
     v = deref_all(arg.fields[0].v); mode = arg.fields[1].v.tag
     if isinstance(v, StrV):
@@ -857,8 +898,46 @@ def m_dyn(ex, a, m):
 # ------------------------------------------------------------------------------------------ Display / Debug / Formatter
 class FormatterV:
     def __init__(s): s.buf = []; s.chars = []
+def f64_concrete(v):
+    t = z3.simplify(v.f)
+    if not z3.is_fp_value(t): return None
+    if t.isNaN(): return float('nan')
+    if t.isInf(): return float('-inf') if t.isNegative() else float('inf')
+    import struct as _st
+    bits = z3.simplify(z3.fpToIEEEBV(t))
+    return _st.unpack('<d', _st.pack('<Q', bits.as_long()))[0] if z3.is_bv_value(bits) else None
+def rust_float_display(x, is_f32=False):
+    """`{}` of a float: the shortest digits that round-trip (in the value's own precision), positional notation, no trailing `.0`"""
+    import math, struct as _st
+    from decimal import Decimal
+    if math.isnan(x): return 'NaN'
+    if math.isinf(x): return '-inf' if x < 0 else 'inf'
+    if is_f32:
+        r = None
+        for p in range(1, 10):
+            r = '%.*e' % (p - 1, x)
+            if _st.unpack('<f', _st.pack('<f', float(r)))[0] == x: break
+    else: r = repr(x)
+    t = format(Decimal(r), 'f')
+    if '.' in t: t = t.rstrip('0').rstrip('.')
+    if t in ('', '-'): t += '0'
+    if x == 0 and math.copysign(1, x) < 0 and not t.startswith('-'): t = '-' + t
+    return t
+FLOAT_REPRESENTATIVES = [0.1, 0.5, 1.0, -2.5, 3.140000104904175, 0.30000001192092896, 16777216.0, 1e10, 0.0, 1.5e-5, 123456.7890625]
+def float_display_concretised(ex, v):
+    """Display of a float is decided on concrete values only: a symbolic float is concretised to one of a few representatives consistent with the
+    path (each a separate path); the remaining values are an unsupported path (stated bound)"""
+    x = f64_concrete(v)
+    is32 = hasattr(v, 'g')
+    if x is None:
+        conds = [(c, z3.fpEQ(v.f, z3.FPVal(c, z3.Float64()))) for c in FLOAT_REPRESENTATIVES]
+        conds.append((None, z3.And(*[z3.Not(c[1]) for c in conds])))
+        x = ex.choose(conds)
+        if x is None: raise Unsupported('Display of a symbolic float outside the representatives')
+    return rust_float_display(x, is32)
 def fmt_display(ex, v):
     v = deref_all(v)
+    if isinstance(v, F64): return float_display_concretised(ex, v)
     if isinstance(v, StrV):
         c = v.concrete(); return c if c is not None else '<symstr>'
     if isinstance(v, Int):
@@ -913,6 +992,7 @@ def render_chars(ex, args):
         else:
             arg = fargs[k].v; v = deref_all(arg.fields[0].v); mode = arg.fields[1].v.tag
             if mode == 'display' and isinstance(v, StrV): out.extend(v.chars)
+            elif mode == 'debug' and isinstance(v, StrV) and v.concrete() is None: out.extend(debug_str_chars(ex, v))
             elif mode == 'display' and isinstance(v, Int) and v.ty == 'char' and v.concrete() is None: out.append(v)
             else: out.extend(render_arg(ex, arg))
             k += 1; i += 1
@@ -1453,7 +1533,7 @@ def _vecof(v):
     t = deref_all(v)
     if not isinstance(t, (VecV, SliceRef)): raise Unsupported(f'not a vec/slice: {t!r}')
     return t
-@model_rx(r'^(Vec|VecDeque)::(pop|pop_back|insert|remove|truncate|clear|push_front|swap_remove|reserve|shrink_to_fit|as_slice|as_mut_slice|append|extend_from_slice|dedup|retain|drain|split_off|back|front|get_mut|capacity)$')
+@model_rx(r'^(Vec|VecDeque)::(pop|pop_back|insert|remove|truncate|clear|push_front|swap_remove|reserve|shrink_to_fit|as_slice|as_mut_slice|append|extend_from_slice|dedup|dedup_by|dedup_by_key|retain|drain|split_off|back|front|get_mut|capacity)$')
 def m_vec_more(ex, a, m):
     op = m.group(2); v = _vecof(a[0]); items = v.items
     if op in ('pop', 'pop_back'): return some(items.pop().v) if items else none()
@@ -1482,6 +1562,15 @@ def m_vec_more(ex, a, m):
         out = []
         for c in items:
             if out and pybool(ex, generic_eq(ex, out[-1].v, c.v)): continue
+            out.append(c)
+        items[:] = out; return UNIT
+    if op in ('dedup_by', 'dedup_by_key'):
+        out = []
+        for c in items:
+            if out:
+                if op == 'dedup_by': same = pybool(ex, ex.call_value(a[1], [Ptr(c, 'ref'), Ptr(out[-1], 'ref')]))        # same_bucket(current, previous retained)
+                else: same = pybool(ex, generic_eq(ex, ex.call_value(a[1], [Ptr(out[-1], 'ref')]), ex.call_value(a[1], [Ptr(c, 'ref')])))
+                if same: continue
             out.append(c)
         items[:] = out; return UNIT
     if op == 'retain':
